@@ -444,14 +444,18 @@ class GriddedPSFModel(ModelGridPlotMixin, Fittable2DModel):
         yidx = np.searchsorted(self._ygrid, y) - 1
 
         # Clip the indices to valid ranges
-        xidx = np.clip(xidx, 0, len(self._xgrid) - 2)
-        yidx = np.clip(yidx, 0, len(self._ygrid) - 2)
+        # (a grid with a single row or column has only one cell edge
+        # along that axis)
+        xidx = np.clip(xidx, 0, max(len(self._xgrid) - 2, 0))
+        yidx = np.clip(yidx, 0, max(len(self._ygrid) - 2, 0))
+        xidx1 = min(xidx + 1, len(self._xgrid) - 1)
+        yidx1 = min(yidx + 1, len(self._ygrid) - 1)
 
         # Find the four bounding points in the sorted grid
         # (x0, y0) is the lower-left corner of the grid
         # (x1, y1) is the upper-right corner of the grid
-        x0, x1 = self._xgrid[xidx], self._xgrid[xidx + 1]
-        y0, y1 = self._ygrid[yidx], self._ygrid[yidx + 1]
+        x0, x1 = self._xgrid[xidx], self._xgrid[xidx1]
+        y0, y1 = self._ygrid[yidx], self._ygrid[yidx1]
 
         # Find the indices of these points in grid_xypos
         xcoords, ycoords = self.grid_xypos.T
@@ -490,6 +494,14 @@ class GriddedPSFModel(ModelGridPlotMixin, Fittable2DModel):
 
         xi = np.clip(xi, x0, x1)
         yi = np.clip(yi, y0, y1)
+
+        if x1 == x0 or y1 == y0:
+            # degenerate cell (single row and/or column of reference
+            # PSFs): interpolate along the remaining axis only
+            wx1 = 0.0 if x1 == x0 else (xi - x0) / (x1 - x0)
+            wy1 = 0.0 if y1 == y0 else (yi - y0) / (y1 - y0)
+            wx0, wy0 = 1.0 - wx1, 1.0 - wy1
+            return np.array([wx0 * wy0, wx1 * wy0, wx0 * wy1, wx1 * wy1])
 
         norm = (x1 - x0) * (y1 - y0)
         # lower-left, lower-right, upper-left, upper-right
